@@ -33,6 +33,7 @@ def translate(path):
     messages = {}
     for m in root.find("messages"):
         messages[m.attrib["msgtype"]] = {"name": m.attrib["name"], "members": expand(m, True)}
-    header = [name2tag[f.attrib["name"]] for f in root.find("header") if f.tag == "field"]
+    # header members: fields and repeating groups (NoHops); the validator skips all of them in the body
+    header = [name2tag[f.attrib["name"]] for f in root.find("header") if f.tag in ("field", "group")]
     trailer = [name2tag[f.attrib["name"]] for f in root.find("trailer") if f.tag == "field"] if root.find("trailer") is not None else []
     return {"fields": fields, "header": header, "trailer": trailer, "messages": messages, "soh": "\x01"}
